@@ -540,7 +540,8 @@ let run_case oc (line : string) =
                 else (match kind_of (sloti 1) with
                       | Rodeo.OReader _ | Rodeo.OResolver _ | Rodeo.OThreaded _ -> "T"
                       | _ -> "X")
-            | "EQ" -> out_s (do_step (Rodeo.EqOp (slot 1, slot 2)))
+            (* PEQ: the same comparison evaluated concurrently in both directions by the driver; one model step, same answer *)
+            | "EQ" | "PEQ" -> out_s (do_step (Rodeo.EqOp (slot 1, slot 2)))
             | "FI" ->
                 if not (L.mem a.(1) [ "r"; "t" ] && L.mem a.(2) [ "exact"; "none"; "low"; "high" ]) then "X"
                 else out_s (do_step (Rodeo.FromIter (a.(1) = "t", hexlist a.(3))))
